@@ -27,8 +27,10 @@ what matters of them is kept as data of the scenario / fault plan
 
 `fixed = true` is the code with fixes/D6.diff (the reconciler closes the pipe into
 `cache.Store` with the parse error, so a failed read/parse fails the store and the
-entry is deleted).  `fixed = false` is the pinned tree: the parser's `Close` ends
-the copy with EOF, `Store` succeeds with whatever was read so far.
+entry is deleted) and fixes/D18.diff (`teeReadCloser` keeps returning a write error).
+`fixed = false` is the pinned tree: the parser's `Close` ends the copy with EOF, so
+`Store` succeeds with whatever was read so far (D6), and a write error of the tee can
+be overlooked by the parser (D18).
 -/
 namespace Xp.C15
 
@@ -195,6 +197,7 @@ structure Faults where
   store : Bool := false   -- cache.Store fails (create / write at byte b / close)
   seen : Bool := false    -- … and the failure reaches the parser through the tee
   left : Left := .none    -- … leaving this behind until Delete runs
+  lost : Option (List Doc) := none  -- unfixed tee only: the parser overlooks the write error and ends normally on this stream
   get : Bool := false     -- cache.Get fails
   del : Bool := false     -- cache.Delete fails
   upd : Upd := .ok        -- client.Update(revision)
@@ -220,9 +223,16 @@ def Cache.set (c : Cache) (k : String) : Option Entry → Cache
 
 /-- What the parser returns for the stream pulled from the image through the tee:
 the parse of the whole stream, unless the source fails mid-stream or a failure of
-the concurrent `cache.Store` comes back through the pipe as a read error. -/
-def pulled (r : Rev) (f : Faults) : Option Pkg :=
-  if !f.read && !(f.store && f.seen) then parse r.docs else none
+the concurrent `cache.Store` comes back through the pipe as a read error.
+Unfixed code (without fixes/D18.diff) only: `teeReadCloser` reports the write error
+once; `bufio.Reader.ReadLine` (under the YAML reader) drops an error that arrives
+together with a partial line, and if the source is at EOF by then the parser ends
+normally on the stream `f.lost` – the bytes read while the write failed are gone. -/
+def pulled (fixed : Bool) (r : Rev) (f : Faults) : Option Pkg :=
+  if f.read then none
+  else if f.store && f.seen then
+    (if fixed then none else match f.lost with | some ds => parse ds | none => none)
+  else parse r.docs
 
 /-- The cache file under the revision's name after the tee'd pull, i.e. after
 `cache.Store(pr.GetName(), pipeR)` returned and, if it returned an error,
@@ -234,8 +244,8 @@ def pulled (r : Rev) (f : Faults) : Option Pkg :=
  * Otherwise `Delete` removes what `Store` left behind (`f.left`), unless `Delete`
    fails too. -/
 def storedEntry (fixed : Bool) (r : Rev) (f : Faults) : Option Entry :=
-  if !f.store && ((pulled r f).isSome || !fixed) then
-    some (.content (if (pulled r f).isSome then r.docs else f.cut))
+  if !f.store && ((pulled fixed r f).isSome || !fixed) then
+    some (.content (if (pulled fixed r f).isSome then r.docs else f.cut))
   else if f.del then leftEntry r f.left
   else none
 
@@ -257,7 +267,7 @@ def fetch (fixed : Bool) (r : Rev) (f : Faults) (c : Cache) : Cache × Fetch :=
     else
       -- backend.Init; tee of the image stream into cache.Store(pr.GetName(), pipeR); Parse;
       -- [fixed: pipeW.CloseWithError(parse error)]; <-cacheWrite; on error cache.Delete(id)
-      (c.set r.key (storedEntry fixed r f), .parsed (pulled r f))
+      (c.set r.key (storedEntry fixed r f), .parsed (pulled fixed r f))
 
 structure Out where
   res : String
